@@ -38,6 +38,13 @@ pub struct Sc {
     /// finds no send budget, and a write blocked on the connection's send budget (the network withholds everything from the
     /// moment these calls are issued; a peer-originated cause is then let through alone)
     pub held_calls: bool,
+    /// session requests the peer sends on further bidirectional streams of the established connection before the cause is
+    /// raised (nobody accepts them: the first waits in the session queue, later ones are refused)
+    pub surplus: usize,
+    /// the peer has opened its QPACK encoder and decoder streams (as browsers do)
+    pub qpack: bool,
+    /// select! start deviations, counted from the moment the cause is raised
+    pub sel: Vec<(u32, u32)>,
 }
 
 impl Sc {
@@ -51,7 +58,7 @@ impl Sc {
             Cause::Partition => json!({"c":"partition"}),
             Cause::HandlesDropped { stalled_uni, stalled_bi } => json!({"c":"handles_dropped","stalled_uni":stalled_uni,"stalled_bi":stalled_bi}),
         };
-        json!({"cause": c, "role_server": self.role_server, "clones": self.clones, "held_calls": self.held_calls})
+        json!({"cause": c, "role_server": self.role_server, "clones": self.clones, "held_calls": self.held_calls, "surplus": self.surplus, "qpack": self.qpack, "sel": self.sel})
     }
     pub fn from_json(v: &Value) -> Sc {
         let c = &v["cause"];
@@ -65,7 +72,7 @@ impl Sc {
             "partition" => Cause::Partition,
             _ => Cause::HandlesDropped { stalled_uni: c["stalled_uni"].as_u64().unwrap() as usize, stalled_bi: c["stalled_bi"].as_u64().unwrap() as usize },
         };
-        Sc { cause, role_server: v["role_server"].as_bool().unwrap(), clones: v["clones"].as_u64().unwrap() as usize, held_calls: v["held_calls"].as_bool().unwrap_or(false) }
+        Sc { cause, role_server: v["role_server"].as_bool().unwrap(), clones: v["clones"].as_u64().unwrap() as usize, held_calls: v["held_calls"].as_bool().unwrap_or(false), surplus: v["surplus"].as_u64().unwrap_or(0) as usize, qpack: v["qpack"].as_bool().unwrap_or(false), sel: v["sel"].as_array().map(|a| a.iter().map(|p| (p[0].as_u64().unwrap() as u32, p[1].as_u64().unwrap() as u32)).collect()).unwrap_or_default() }
     }
 }
 
@@ -140,6 +147,19 @@ pub async fn run(sc: Sc) -> Result<String, String> {
     let sid = rs.session_id;
     let (lib_addr, peer_addr) = if sc.role_server { (server_addr(), client_addr()) } else { (client_addr(), server_addr()) };
 
+    if sc.qpack {
+        for ty in [rc::reg::STREAM_QPACK_ENCODER, rc::reg::STREAM_QPACK_DECODER] {
+            let s = raw.open_uni_with(&rc::uni_header_encode(ty, None)).await?;
+            raw.hold(s);
+        }
+        settle_ms(20).await;
+    }
+    for _ in 0..sc.surplus {
+        let (s, r) = raw.open_bi_with(&rc::headers_frame(&rc::connect_request_fields("localhost", "/surplus"))).await?;
+        raw.hold(s);
+        raw.hold(r);
+        settle_ms(20).await;
+    }
     if let Cause::HandlesDropped { stalled_uni, stalled_bi } = &sc.cause {
         // peer streams stuck inside their preamble
         for _ in 0..*stalled_uni {
@@ -327,6 +347,7 @@ pub async fn run(sc: Sc) -> Result<String, String> {
     }
 
     // --- the cause ---
+    select_mark();
     match &sc.cause {
         Cause::PeerQuicClose { code, reason } => raw.conn.close(quinn::VarInt::from_u64(*code).unwrap(), reason),
         Cause::PeerCapsule { code, reason } => rs.req_send.write_all(&rc::close_capsule_frame(*code, reason)).await.map_err(|e| format!("{e:?}"))?,
@@ -395,7 +416,7 @@ pub async fn run(sc: Sc) -> Result<String, String> {
 
 pub fn exec(sc: &Sc) -> Outcome {
     let sc2 = sc.clone();
-    let (res, info) = run_sim(&SelectPolicy::default(), move || run(sc2));
+    let (res, info) = run_sim(&SelectPolicy { overrides: sc.sel.clone() }, move || run(sc2));
     let mut o = match res {
         Ok(obs) => Outcome::ok(
             match &sc.cause {
@@ -435,9 +456,36 @@ pub fn scenarios(tier: Tier) -> Vec<Sc> {
     for c in causes {
         for role in [true, false] {
             for clones in if thorough { vec![0usize, 1, 2, 3] } else { vec![0, 2] } {
-                out.push(Sc { cause: c.clone(), role_server: role, clones, held_calls: false });
+                out.push(Sc { cause: c.clone(), role_server: role, clones, held_calls: false, surplus: 0, qpack: false, sel: vec![] });
                 if thorough && clones <= 1 {
-                    out.push(Sc { cause: c.clone(), role_server: role, clones, held_calls: true });
+                    out.push(Sc { cause: c.clone(), role_server: role, clones, held_calls: true, surplus: 0, qpack: false, sel: vec![] });
+                    for surplus in [1usize, 2, 3] {
+                        out.push(Sc { cause: c.clone(), role_server: role, clones, held_calls: surplus == 2, surplus, qpack: surplus == 3, sel: vec![] });
+                    }
+                }
+            }
+        }
+    }
+    // the peer's QPACK streams are open when the connection ends, and whichever branch of the worker's select! loops is polled
+    // first at that moment must not change the attribution: one start deviation in the polls after the cause
+    for c in [Cause::PeerQuicClose { code: 42, reason: b"bye".to_vec() }, Cause::PeerCapsule { code: 9, reason: b"done".to_vec() }, Cause::PeerFin, Cause::LocalClose { code: 5, reason: b"local".to_vec() }, Cause::Partition, Cause::LocalProtoError(0)] {
+        for role in [true, false] {
+            out.push(Sc { cause: c.clone(), role_server: role, clones: 1, held_calls: false, surplus: 0, qpack: true, sel: vec![] });
+            for k in 0..if tier >= Tier::Deep { 16u32 } else if thorough { 8 } else { 3 } {
+                for start in 1..9u32 {
+                    out.push(Sc { cause: c.clone(), role_server: role, clones: 1, held_calls: false, surplus: 0, qpack: true, sel: vec![(k, start)] });
+                    if tier >= Tier::Deep {
+                        out.push(Sc { cause: c.clone(), role_server: role, clones: 0, held_calls: false, surplus: 0, qpack: false, sel: vec![(k, start)] });
+                    }
+                }
+            }
+            // nested select! loops (the worker's, and the one over the critical streams inside one of its branches) are polled
+            // back to back: deviations in two consecutive polls reach every pair (outer branch, inner branch)
+            for k in 0..if tier >= Tier::Deep { 12u32 } else if thorough { 6 } else { 2 } {
+                for s1 in 1..9u32 {
+                    for s2 in 1..6u32 {
+                        out.push(Sc { cause: c.clone(), role_server: role, clones: 1, held_calls: false, surplus: 0, qpack: true, sel: vec![(k, s1), (k + 1, s2)] });
+                    }
                 }
             }
         }
@@ -445,11 +493,11 @@ pub fn scenarios(tier: Tier) -> Vec<Sc> {
     let stalled_max = if tier >= Tier::Deep { 9usize } else { 3 };
     if tier >= Tier::Deep {
         for k in 0..62u32 {
-            out.push(Sc { cause: Cause::PeerQuicClose { code: 1u64 << k, reason: format!("bit {k}").into_bytes() }, role_server: k % 2 == 0, clones: (k % 3) as usize, held_calls: k % 4 == 1 });
-            out.push(Sc { cause: Cause::LocalClose { code: (1u64 << k) | 1, reason: vec![b'x'; k as usize] }, role_server: k % 2 == 1, clones: (k % 4) as usize, held_calls: k % 4 == 2 });
+            out.push(Sc { cause: Cause::PeerQuicClose { code: 1u64 << k, reason: format!("bit {k}").into_bytes() }, role_server: k % 2 == 0, clones: (k % 3) as usize, held_calls: k % 4 == 1, surplus: (k % 5) as usize, qpack: k % 2 == 0, sel: vec![] });
+            out.push(Sc { cause: Cause::LocalClose { code: (1u64 << k) | 1, reason: vec![b'x'; k as usize] }, role_server: k % 2 == 1, clones: (k % 4) as usize, held_calls: k % 4 == 2, surplus: (k % 3) as usize, qpack: k % 2 == 1, sel: vec![] });
         }
         for k in 0..32u32 {
-            out.push(Sc { cause: Cause::PeerCapsule { code: 1u32 << k, reason: vec![b'r'; (k * 33) as usize % 1025] }, role_server: k % 2 == 0, clones: 1, held_calls: k % 3 == 0 });
+            out.push(Sc { cause: Cause::PeerCapsule { code: 1u32 << k, reason: vec![b'r'; (k * 33) as usize % 1025] }, role_server: k % 2 == 0, clones: 1, held_calls: k % 3 == 0, surplus: (k % 4) as usize, qpack: k % 3 == 1, sel: vec![] });
         }
     }
     for su in 0..stalled_max {
@@ -459,7 +507,7 @@ pub fn scenarios(tier: Tier) -> Vec<Sc> {
                     if !thorough && clones == 2 && su + sb > 1 {
                         continue;
                     }
-                    out.push(Sc { cause: Cause::HandlesDropped { stalled_uni: su, stalled_bi: sb }, role_server: role, clones, held_calls: false });
+                    out.push(Sc { cause: Cause::HandlesDropped { stalled_uni: su, stalled_bi: sb }, role_server: role, clones, held_calls: false, surplus: if thorough { (su + sb) % 3 } else { 0 }, qpack: (su + sb) % 2 == 1, sel: vec![] });
                 }
             }
         }
@@ -475,7 +523,7 @@ pub fn run_check(args: &Args) -> i32 {
     let rep = Report::new(
         args,
         "fault_enumeration",
-        "fault = termination cause (peer QUIC close x 4 code/reason pairs, peer close capsule x 3, peer FIN, local close x 4, four peer-induced local protocol errors, network partition -> idle timeout, all handles dropped with 0..2 uni and 0..2 bidi peer streams still inside their preamble) x role x number of cloned handles; in every execution nine kinds of calls are pending when the cause is raised (accept_uni, accept_bi, receive_datagram, closed, open_uni with stream credit exhausted, open_bi likewise, read without data, write against a full window, stopped), in the 'held' variant three more (finish() whose FIN cannot be acknowledged, an opening future whose preamble finds no send budget, a write blocked on the connection's send budget) and six more are issued afterwards; each result is judged against the cause's allowed set and a 2 s virtual deadline",
+        "fault = termination cause (peer QUIC close x 4 code/reason pairs, peer close capsule x 3, peer FIN, local close x 4, four peer-induced local protocol errors, network partition -> idle timeout, all handles dropped with 0..2 uni and 0..2 bidi peer streams still inside their preamble) x role x number of cloned handles x 0..3 surplus session requests sent by the peer beforehand x peer QPACK streams open or not x select! start deviations in the first 8 (16) polls after the cause, singly and in two consecutive polls (nested select! loops); in every execution nine kinds of calls are pending when the cause is raised (accept_uni, accept_bi, receive_datagram, closed, open_uni with stream credit exhausted, open_bi likewise, read without data, write against a full window, stopped), in the 'held' variant three more (finish() whose FIN cannot be acknowledged, an opening future whose preamble finds no send budget, a write blocked on the connection's send budget) and six more are issued afterwards; each result is judged against the cause's allowed set and a 2 s virtual deadline",
     );
     rep.assume("allowed results per cause: the exact cause, or LocallyClosed where the library itself shut the transport down in response; stream-level calls: NotConnected");
     let scs = scenarios(args.tier);
